@@ -271,7 +271,7 @@ fn fam_lzma(ctx: &CaseCtx, cov: &mut Cov) -> CaseOut {
             cov.inc("window.circular(via Stream)", 0);
             let k = rng.range(0, 6) as usize;
             let cuts = super::streamdrv::cuts_random(&mut rng, file.len(), k);
-            let run = super::streamdrv::drive(&file, &o, &cuts, &Default::default(), &sink, &obs);
+            let run = super::streamdrv::drive(&file, &o, &cuts, &super::streamdrv::DriveOpts { flush_between: file.len() % 3 == 1, ..Default::default() }, &sink, &obs);
             (run.verdict, file)
         } else {
             (sut::decode(Entry::Lzma, &file, &o, reader, &sink, &obs).verdict, file)
